@@ -896,7 +896,9 @@ func init() {
 		Name: "reload",
 		Rule: "4-27 API calls (insert/update/upsert/replace/delete, CreateCollection, CreateOne with unique/partial(nil,{},filter)/expireAfterSeconds(0,1,3600,max)/compound/custom-name " +
 			"combinations, drops) over databases {d1,d2,a} x collections {c,e,c.d,b.c} and, in 12% of the cases, the dotted database a.b, on a FileStore in a temp dir; Close; reopen; " +
-			"compare dumps of every namespace (documents in order, index definitions, local.oplog) and duplicate probes; model: loadfile on the real bytes, storefile through the real Load; " +
+			"option combinations (unique+TTL, unique+partial, TTL+partial, all, named descending compound), large expireAfterSeconds (30/60 days, 2^29, 2^30, 2147484), drops of the _id index by name and by key specification, " +
+			"8% of the histories with more than 100 (2%: more than 1000) change events; " +
+			"compare dumps of every namespace (documents in order, index definitions, local.oplog), duplicate probes, a change stream resumed after an old event before and after the reload, index coherence and _id_ presence on both sides; model: loadfile on the real bytes, storefile through the real Load; " +
 			"non-trivial = the catalog holds a document or a secondary index",
 		Gen: func(r *gen.R, idx int) []run.Case { return reloadCase(r) },
 		Corpus: func() []run.Case {
